@@ -131,9 +131,11 @@ func SetRapid(totalChecks int, salt uint64) int {
 	_ = flag.Set("rapid.checks", strconv.Itoa(per))
 	_ = flag.Set("rapid.seed", strconv.FormatUint(Seed()+salt*1_000_003, 10))
 	_ = flag.Set("rapid.nofailfile", "true")
+	shrink := "12s"
 	if os.Getenv("VERIF_SHRINKTIME") != "" {
-		_ = flag.Set("rapid.shrinktime", os.Getenv("VERIF_SHRINKTIME"))
+		shrink = os.Getenv("VERIF_SHRINKTIME")
 	}
+	_ = flag.Set("rapid.shrinktime", shrink)
 	return per
 }
 
